@@ -101,7 +101,14 @@ func execRules(c *Ctx, full bool) {
 	c.Rule("R09b1", "Execute: an Applied store is reachable from ExecContext only through the success edge of its error check, and every path from entry to an Applied store passes ExecContext", 2)
 	c.Rule("R09b2", "Execute: from the success edge of ExecContext every path to writeRevision / next ExecContext / return passes the PartialHashes append and the Applied increment (in that order, the append indexing the sums by Applied)", 3)
 	c.Rule("R09b3", "Execute: from the Applied increment every path to the next ExecContext passes writeRevision, and the error branch of every writeRevision / ExecContext leaves the loop (no further ExecContext)", 3)
-	c.Rule("R09e", "Execute: a deferred closure writes the revision unless the error is a WriteRevisionError, and it is deferred on every path before the first ExecContext", 2)
+	c.Rule("R09e", "Execute: a deferred closure writes the revision unless the error is a WriteRevisionError, tests and sets the named error result itself, and is deferred on every path before the first ExecContext", 3)
+	c.Rule("R09i", "error discipline in sql/migrate: inside the branch taken when an error variable is non-nil, a return hands back that error (or one derived from it / a new error), never a different error variable that was not assigned in the branch (it is nil on that path)", 20)
+	errReturnLint(c, "R09i", func(fi *FuncInfo) bool { return fi.Pkg.PkgPath == pMigrate })
+	if c.Tier == "thorough" {
+		c.Rule("R09i+", "cross-reference (thorough): the same error-discipline rule over both modules", 100)
+		errReturnLint(c, "R09i+", func(fi *FuncInfo) bool { return fi.Pkg.PkgPath != pMigrate })
+	}
+	c.Rule("R09j", "Execute: completion agrees with Pending's completeness test (Applied == Total): every path to the point where the file is marked complete (PartialHashes cleared) has stored Revision.Total from the current statement count, also when resuming a revision whose file tail was edited", 1)
 	c.Rule("R09g", "writeRevision reaches RevisionReadWriter.WriteRevision on every path and wraps its error in WriteRevisionError", 2)
 	if full {
 		c.Rule("R09c", "Revision.Applied and Revision.PartialHashes are stored (assignment / inc-dec / address taken) only inside Executor.Execute, in both modules", 3)
@@ -200,6 +207,40 @@ func execRules(c *Ctx, full bool) {
 	}
 	// R09e deferred final write
 	checkDeferredWrite(c, s)
+	// R09j completion sets Total
+	{
+		isComplete := func(n ast.Node) bool {
+			as, ok := n.(*ast.AssignStmt)
+			return ok && len(as.Lhs) == 1 && len(as.Rhs) == 1 && isField(info, as.Lhs[0], pMigrate, "Revision", "PartialHashes") && isNilIdent(info, as.Rhs[0])
+		}
+		setsTotal := func(n ast.Node) bool {
+			hit := false
+			walkShallow(n, func(m ast.Node) bool {
+				switch x := m.(type) {
+				case *ast.AssignStmt:
+					for i, l := range x.Lhs {
+						if isField(info, l, pMigrate, "Revision", "Total") && i < len(x.Rhs) && lenArg(info, x.Rhs[i]) != nil {
+							hit = true
+						}
+					}
+				case *ast.KeyValueExpr:
+					if id, ok := x.Key.(*ast.Ident); ok && id.Name == "Total" && lenArg(info, x.Value) != nil {
+						if f, ok := info.ObjectOf(id).(*types.Var); ok && f.IsField() {
+							hit = true
+						}
+					}
+				}
+				return true
+			})
+			return hit
+		}
+		if len(f.find(isComplete)) == 0 {
+			c.Unresolved("R09j", "Execute: completion point (r.PartialHashes = nil)")
+		} else {
+			n, ok := f.mustPrecede(setsTotal, isComplete)
+			c.Check("R09j", "Execute|Total stored before completion", nodePos(n, s.fi.Decl.Pos()), ok, "the file is marked complete at %s on a path (resumed revision) that never stored Revision.Total from the current statement count: if the pending tail was edited to a different length the revision ends with Applied != Total, Pending keeps treating it as partial and the next run indexes the cleared PartialHashes", c.nodeAt(n))
+		}
+	}
 
 	// R09g writeRevision
 	if wf := c.Func("R09g", pMigrate, "Executor", "writeRevision"); wf != nil {
@@ -428,6 +469,40 @@ func checkDeferredWrite(c *Ctx, s *execShape) {
 		return true
 	})
 	c.Check("R09e", "Execute|deferred writeRevision unless WriteRevisionError", s.fi.Decl.Pos(), deferNode != nil && guarded, "no deferred closure in Execute writes the revision guarded by !errors.As(err, *WriteRevisionError)")
+	if deferNode != nil {
+		// the closure reads and sets the function's named error result, not a copy
+		var named types.Object
+		if rs := s.fi.Decl.Type.Results; rs != nil {
+			for _, fld := range rs.List {
+				for _, nm := range fld.Names {
+					if o := info.ObjectOf(nm); o != nil && types.Identical(o.Type(), types.Universe.Lookup("error").Type()) {
+						named = o
+					}
+				}
+			}
+		}
+		sets, reads := false, false
+		if fl, ok := deferNode.Call.Fun.(*ast.FuncLit); ok && named != nil {
+			ast.Inspect(fl.Body, func(m ast.Node) bool {
+				switch x := m.(type) {
+				case *ast.AssignStmt:
+					for _, l := range x.Lhs {
+						if id, ok := l.(*ast.Ident); ok && info.ObjectOf(id) == named {
+							sets = true
+						}
+					}
+				case *ast.CallExpr:
+					if fn := calleeOf(info, x); fn != nil && fn.Pkg() != nil && fn.Pkg().Path() == "errors" && fn.Name() == "As" && len(x.Args) > 0 {
+						if id, ok := x.Args[0].(*ast.Ident); ok && info.ObjectOf(id) == named {
+							reads = true
+						}
+					}
+				}
+				return true
+			})
+		}
+		c.Check("R09e", "Execute|deferred closure works on the named error result", deferNode.Pos(), sets && reads, "the deferred final write must test and set Execute's named result `err` itself (a parameter or copy of it is evaluated when the defer statement runs and its assignment is lost): a failed final revision write would be dropped (reads=%v sets=%v)", reads, sets)
+	}
 	if deferNode == nil {
 		return
 	}
@@ -796,5 +871,81 @@ func checkPendingReads(c *Ctx, rule string) {
 			types.ExprString(be.X.(*ast.SelectorExpr).X) == types.ExprString(be.Y.(*ast.SelectorExpr).X)
 		c.Check(rule, "Pending|Applied ⋈ Total", be.Pos(), good, "Applied must be compared (==, !=) with Total of the same revision (got %s)", types.ExprString(be))
 		return true
+	})
+}
+
+// errReturnLint: see R09i.
+func errReturnLint(c *Ctx, rule string, want func(*FuncInfo) bool) {
+	errT := types.Universe.Lookup("error").Type()
+	c.AllFuncs(false, func(fi *FuncInfo) {
+		if !want(fi) {
+			return
+		}
+		info := fi.Info()
+		n := 0
+		ast.Inspect(fi.Decl.Body, func(m ast.Node) bool {
+			ifs, ok := m.(*ast.IfStmt)
+			if !ok {
+				return true
+			}
+			// the error variables known non-nil in the then-branch
+			var checked []types.Object
+			for _, fct := range impliedFacts(ifs.Cond, true) {
+				be, ok := fct.expr.(*ast.BinaryExpr)
+				if !ok || !isNilIdent(info, be.Y) {
+					continue
+				}
+				if !((be.Op == token.NEQ && fct.val) || (be.Op == token.EQL && !fct.val)) {
+					continue
+				}
+				if id, ok := be.X.(*ast.Ident); ok {
+					if o := info.ObjectOf(id); o != nil && types.Identical(o.Type(), errT) {
+						checked = append(checked, o)
+					}
+				}
+			}
+			if len(checked) != 1 {
+				return true
+			}
+			x := checked[0]
+			// variables assigned inside the branch
+			assigned := map[types.Object]bool{}
+			ast.Inspect(ifs.Body, func(k ast.Node) bool {
+				if as, ok := k.(*ast.AssignStmt); ok {
+					for _, l := range as.Lhs {
+						if id, ok := l.(*ast.Ident); ok {
+							assigned[info.ObjectOf(id)] = true
+						}
+					}
+				}
+				return true
+			})
+			for _, st := range ifs.Body.List {
+				r, ok := st.(*ast.ReturnStmt)
+				if !ok || len(r.Results) == 0 {
+					continue
+				}
+				last := r.Results[len(r.Results)-1]
+				id, ok := last.(*ast.Ident)
+				if !ok {
+					continue
+				}
+				y := info.ObjectOf(id)
+				if y == nil || !types.Identical(y.Type(), errT) {
+					continue
+				}
+				if _, isVar := y.(*types.Var); !isVar {
+					continue
+				}
+				n++
+				good := y == x || assigned[y]
+				key := fi.Name + "|if " + x.Name() + " != nil { return " + y.Name() + " }"
+				if n > 1 {
+					key += "#" + itoa(n)
+				}
+				c.Check(rule, key, r.Pos(), good, "inside the branch where %q is non-nil the function returns %q, a different error variable that is not assigned in the branch: the failure is reported as the (nil or stale) value of %q", x.Name(), y.Name(), y.Name())
+			}
+			return true
+		})
 	})
 }
